@@ -150,18 +150,19 @@ class Pool:
 
 
 _guarded = False
-_libc = None
+try:
+    import ctypes as _ctypes
+
+    _libc = _ctypes.CDLL("libc.so.6", use_errno=True)
+except Exception:  # noqa: BLE001
+    _libc = None
 
 
 def die_with_parent() -> None:
     """Linux: deliver SIGKILL to this process when its parent dies (no orphaned workers)."""
-    global _libc
     try:
-        if _libc is None:
-            import ctypes
-
-            _libc = ctypes.CDLL("libc.so.6", use_errno=True)
-        _libc.prctl(1, signal.SIGKILL, 0, 0, 0)  # PR_SET_PDEATHSIG
+        if _libc is not None:
+            _libc.prctl(1, signal.SIGKILL, 0, 0, 0)  # PR_SET_PDEATHSIG
     except Exception:  # noqa: BLE001
         pass
 
